@@ -3,6 +3,10 @@
 import json, sys
 BASE = "cd /repo && cargo nextest run --workspace --no-fail-fast --test-threads 8 --offline || cargo test --workspace --no-fail-fast --offline"
 CHECKS = {
+ "C02": dict(cat="model_checking", eng="mdv-env", ref="DESIGN.md §3 C02",
+   tech="deviation-bounded exhaustive enumeration of hostile-value alphabets per input family (registers, auxv, synthetic linker data in target memory, mutated mapped ELF images, /dev-backed mappings, names, configuration) + every alternative answer of every intercepted libc call, each as a real dump under a watchdog; every open() of the dumper is observed through the interposed libc",
+   text="Crash-context rsp(23) x rip(24) x option sets; live spin-thread rsp(23); direct auxv phnum(8) x phdr(8) x gate(4) x entry(4) (<=2 deviations quick, product thorough); every 8-byte field of synthetic program headers / dynamic entries / r_debug / link_maps in target memory x 22 boundary values + 12 chain shapes (cycles, unterminated, names at the edge of readable memory); 10 kinds of /dev-backed mappings; 12 hostile thread names x 3 threads; 26 configuration extremes; every libc call of the baseline trace x {errno alternatives, 1- and 7-byte reads}; every header field of generated ELF images mapped into the target x 12 values; 61 880 (thorough 800k) version-suffixed mapping names in-process. Each outcome must be Ok or Err within 20 s, no panic, no open of a path under /dev.",
+   note="Values outside the alphabets are not covered. A hang ends the run with a VIOLATION from the watchdog (one finding per run). kill/ptrace/process_vm_readv of the subject are only forwarded for pids of the worker's own puppet."),
  "C03": dict(cat="model_checking", eng="mdv-env", ref="DESIGN.md §3 C03",
    tech="deviation-bounded exhaustive exploration of fault points x signal-event placements at intercepted libc call boundaries around real dumps; oracle on /proc state, heartbeats and per-thread signal logs",
    text="Every destination call failing or panicking, a hard error mid-dump, every injectable libc answer of the recorded baseline trace (attach/wait/regs/vmread/open/opendir/kill/uname) and the StopProcess fail point, each run to completion; plus every placement of one signal event (SIGUSR1/SIGRTMIN to each thread, process-directed SIGUSR2) before ~18 keyed syscalls and after return under four fault contexts (thorough: all pairs of events with different signal numbers). After each run: no thread traced or stopped within 2 s, every thread makes progress, every sent signal handled exactly once; every successful attach has a detach.",
@@ -62,7 +66,7 @@ CHECKS = {
  "C14": dict(cat="model_checking", eng="mdv-lat", ref="DESIGN.md §3 C14",
    tech="structure-aware exhaustive mutation (every field x boundary values, truncations, byte flips) of generated ELF images + all installed ELF files vs. an independent ELF reader",
    text="23 base images (64/32-bit, LE/BE, with/without notes, SONAME, sections, split PT_LOAD) x every header field x 18 boundary values (thorough: all field pairs x 6 values on 3 images), every truncation, every byte x {00,ff}: no panic. Base images and every installed ELF file (quick: /usr/bin + /usr/lib/x86_64-linux-gnu; thorough: /usr /opt /root toolchains): build id and SONAME equal the independent reader's.",
-   note="Agreement only demanded where the independent reader finds the image well-formed and unambiguous. Memory-vs-file comparison is added with the puppet-based driver."),
+   note="Agreement only demanded where the independent reader finds the image well-formed and unambiguous. Memory-vs-file: 8 fixture libraries and 6 (thorough 14) system libraries are dlopen'ed into a puppet and identified from target memory and from the file."),
  "C20": dict(cat="model_checking", eng="mdv-lat", ref="DESIGN.md §3 C20",
    tech="exhaustive enumeration of stack-copy length x SP offset x pointer position/alignment x pointer value on the real stack_has_pointer_to_mapping vs. the statement's iff-rule",
    text="Copy length 0..40 x stack-pointer offset 0..24 x pointer byte offset 0..32 (aligned and unaligned) x 6 values around the mapping bounds, plus no-pointer and decoys-below-SP cases: the real function must answer exactly the iff-rule and never panic.",
